@@ -110,7 +110,7 @@ def check(prop, tier, seed, repo, jobs, replay=None, quiet=False):
 
 def _check(mod, meta, prop, tier, seed, repo, jobs, replay, workdir, t0, quiet):
     base = {'prop': prop, 'tier': tier, 'seed': seed, 'repo': repo,
-            'case_cpu_s': meta.get('case_cpu_s', {}).get(tier, 240 if tier == 'quick' else 1800),
+            'case_cpu_s': meta.get('case_cpu_s', {}).get(tier, 3600 if tier == 'quick' else 10800),
             'mem_gib': meta.get('mem_gib', 6)}
     base.update(meta.get('spec', {}).get(tier, {}))
     if replay is not None:
